@@ -213,21 +213,20 @@ class Run:
                 continue
             for reg in REGS:
                 ev = [e for e in self.events[reg] if abs(e[1] - t) <= 2 * RES and e[4] == src]
-                stops = []
-                for p_ in prev:
-                    sp = [e[0] for e in ev if e[2] == "stopped" and e[3] == p_]
-                    if sp:
-                        stops.append(min(sp))
-                # the report caused by this message is the last 'offered' of that service in
-                # this instant (an earlier one may be the replay of a same-instant watch call)
-                offs = []
-                for o in offered:
-                    so = [e[0] for e in ev if e[2] == "offered" and e[3] == o]
-                    if so:
-                        offs.append(max(so))
+                # what this listener believed to be live from that source just before the message
+                believed = {}
+                for e in self.events[reg]:
+                    if e[4] == src and e[1] < t - 2 * RES and e[5] == self.period[reg]:
+                        believed[e[3]] = e[2]
+                believed = {svc for svc, kind in believed.items() if kind == "offered"}
+                first_offered = min([e[0] for e in ev if e[2] == "offered"], default=None)
                 self.stats["reboot_order_checks"] += 1
-                if stops and offs and max(stops) > min(offs):
-                    self.fail("reboot-stops-reported-after-offers-of-the-same-message", reg, None, SOURCES[src], ev)
+                if first_offered is None:
+                    continue
+                for svc in believed:
+                    mine = [e for e in ev if e[3] == svc]
+                    if mine and mine[0][2] == "stopped" and mine[0][0] > first_offered:
+                        self.fail("reboot-stops-reported-after-offers-of-the-same-message", reg, svc, SOURCES[src], ev)
 
     def execute(self, horizon):
         h = self.h
